@@ -1,4 +1,4 @@
-#!/usr/bin/env python3
+#!/venv/bin/python
 """Run the repository's pinned suite (hooks off) and compare with /root/.vp/BASELINE.json:
 every test of stable_pass must pass. Exit 0 iff so."""
 import json, os, subprocess, sys, tempfile, xml.etree.ElementTree as ET
@@ -7,9 +7,13 @@ def main() -> int:
     base = json.load(open('/root/.vp/BASELINE.json'))
     env = dict(os.environ)
     env.pop('EXABGP_VERIF', None)
+    # a pyenv shim that launched us pins its own interpreter for every `python3` below us: undo that
+    for k in ('PYENV_VERSION', 'PYENV_DIR', 'PYENV_HOOK_PATH', '_PYENV_INSTALL_PREFIX'):
+        env.pop(k, None)
+    env['PATH'] = ':'.join(p for p in env.get('PATH', '').split(':') if not any(x in p for x in ('/.pyenv/versions/', '/.pyenv/libexec', '/.pyenv/plugins/')))
     with tempfile.TemporaryDirectory() as d:
         out = os.path.join(d, 'junit.xml')
-        cmd = base['cmd'].replace('<file>', out)
+        cmd = base['cmd'].replace('<file>', out) + ' ' + ' '.join(sys.argv[1:])
         subprocess.run(cmd, shell=True, env=env, stdout=subprocess.DEVNULL, stderr=subprocess.DEVNULL)
         passed = set()
         for tc in ET.parse(out).getroot().iter('testcase'):
@@ -17,6 +21,8 @@ def main() -> int:
                 passed.add(f"{tc.get('classname')}::{tc.get('name')}")
     # junit classnames include the class for methods; BASELINE ids are module[.Class]::name
     missing = [t for t in base['stable_pass'] if t not in passed]
+    if sys.argv[1:]:
+        missing = [t for t in missing if any(a.replace('/', '.').replace('.py', '') in t for a in sys.argv[1:])]
     print(f'passed={len(passed)} stable_pass={len(base["stable_pass"])} missing={len(missing)}')
     for t in missing[:40]:
         print('MISSING', t)
